@@ -12,3 +12,4 @@ import BezierVerif.Props.C04
 import BezierVerif.Props.Roots
 import BezierVerif.Props.C02
 import BezierVerif.Props.C03
+import BezierVerif.Props.C08
